@@ -955,6 +955,133 @@ def rule_r8(repo):
     return rr
 
 
+def _dk(d):
+    """label-relevant identity of a descriptor object of the concrete fold"""
+    if isinstance(d, Obj):
+        f = d.fields
+        return (d.cls, f.get('id'), f.get('nbits') if d.cls in ('AssociatedDescriptor', 'SkippedLocalDescriptor', 'MarkerDescriptor') else None,
+                f.get('marker_id'), repr(f.get('refval')) if d.cls == 'MarkerDescriptor' else None)
+    return repr(d)
+
+
+def _outcome(r):
+    return 'returns' if r.ok else 'raises ' + r.exc.cls
+
+
+def rule_r9(repo):
+    """Concrete compile / replay differential (rules/pipeline.py): every template of the end-to-end family, and a family of templates
+    whose *data* are inconsistent with the template (more marker operators / quality values than the bitmap has zero bits, a bitmap
+    longer than the elements before it, a recall without a bitmap), is (a) walked by Decoder.process_members with a scripted reader,
+    (b) compiled by TemplateCompiler.process_members, the recorded statements being run by process_statements with a Decoder on a
+    fresh state and the same script.  Same fields asked for, same descriptors, values and links - or the same error.  The same for
+    the encoder, and for compressed data whose subsets carry different bitmaps."""
+    from sa.rules import pipeline as P
+    rr = RuleResult('C08.R9', 'compiled and plain walk, folded concretely: same fields, labels, values, links - or the same error (decoder, encoder, compressed)')
+    fi = repo.func('templatecompiler', 'process_statements')
+    T, B, Q, OP, FIX, DEL, E, F = P.T, P.B, P.Q, P.OP, P.FIX, P.DEL, P.E, P.F31001
+    sig = lambda: E(8023, 'FIRST ORDER STATISTICS', 'CODE TABLE', 6)
+    family = dict(P.templates())
+    # data that do not fit the template: the plain walk fails, and the compiled walk has to fail alike
+    family['more first-order statistics than zero bits'] = (
+        [T(), T(12103), OP(224000), OP(236000), FIX(2, B()), sig(), DEL(F(), OP(224255))], [2801, 2750, 0, 1, 4, 2, 2802, 2803])
+    family['more first-order statistics than zero bits, then more data'] = (
+        [T(), T(12103), OP(224000), OP(236000), FIX(2, B()), sig(), DEL(F(), OP(224255), T(12103)), T()], [2801, 2750, 0, 1, 4, 2, 2802, 2750, 2803, 2751, 2804])
+    family['substituted value with a bitmap of ones only'] = ([T(), OP(223000), FIX(1, B()), OP(223255), T(12103)], [2801, 1, 2790, 2750])
+    family['more quality values than zero bits'] = ([T(), T(12103), OP(222000), FIX(2, B()), DEL(F(), Q()), T()], [2801, 2750, 0, 1, 2, 70, 80, 2802])
+    family['bitmap longer than the elements before it'] = ([T(), OP(222000), FIX(3, B()), Q()], [2801, 0, 0, 0, 70])
+    family['recall (237000) without a bitmap defined for reuse'] = ([T(), OP(224000), OP(237000), sig(), OP(224255)], [2801, 4, 2802])
+    family['marker operator without any bitmap'] = ([T(), OP(224255)], [2801, 2802])
+    n_err = 0
+    for name in sorted(family):
+        members, script = family[name]
+        rr.instance('decoder: %s' % name)
+        r1, st1, rd1 = P.decode(repo, members, script)
+        c, stmts = P.compile_template(repo, members)
+        if not c.ok:
+            if r1.ok or r1.exc.cls != c.exc.cls:
+                rr.fail('concrete:%s:compile' % name, fi.where, '%s: the plain walk %s, compiling the template %s' % (name, _outcome(r1), _outcome(c)), witness={'template': name})
+            continue
+        st2, rd2 = P.plain_state(repo), P.ScriptReader(script)
+        r2 = P.replay(repo, stmts, st2, rd2)
+        if not r1.ok:
+            n_err += 1
+        if r1.ok != r2.ok or (not r1.ok and r1.exc.cls != r2.exc.cls):
+            rr.fail('concrete:%s:outcome' % name, fi.where, '%s: the plain walk %s after %d fields, the compiled template %s after %d fields (decoded so far: %r / %r) - '
+                    'the same data must give the same result or the same error' % (name, _outcome(r1), rd1.k, _outcome(r2), rd2.k,
+                                                                                 st1.fields['decoded_values_all_subsets'][0][-4:], st2.fields['decoded_values_all_subsets'][0][-4:]),
+                    witness={'template': name})
+            continue
+        if not r1.ok:
+            continue
+        for what, a, b in (('fields read', rd1.log, rd2.log),
+                           ('descriptors', [_dk(d) for d in st1.fields['decoded_descriptors_all_subsets'][0]], [_dk(d) for d in st2.fields['decoded_descriptors_all_subsets'][0]]),
+                           ('values', st1.fields['decoded_values_all_subsets'][0], st2.fields['decoded_values_all_subsets'][0]),
+                           ('links', st1.fields['bitmap_links_all_subsets'][0], st2.fields['bitmap_links_all_subsets'][0])):
+            if a != b:
+                k = first_difference(list(a.items()) if isinstance(a, dict) else a, list(b.items()) if isinstance(b, dict) else b)
+                rr.fail('concrete:%s:%s' % (name, what), fi.where, '%s: %s differ at position %s: plain %r, compiled %r' % (
+                    name, what, k, (list(a.items()) if isinstance(a, dict) else a)[k:k + 2] if k is not None else a, (list(b.items()) if isinstance(b, dict) else b)[k:k + 2] if k is not None else b),
+                    witness={'template': name})
+                break
+        # encoder: the decoded values written back by the plain walk and by the compiled template
+        vals = st1.fields['decoded_values_all_subsets'][0]
+        e1, _, w1 = P.encode(repo, members, vals)
+        from sa.rules.walk import fold_init
+        sts = fold_init(repo, False, 1, values=[list(vals)])
+        est = ([x for x in sts if all(type(v) is list for v in x.fields.get('decoded_values_all_subsets', [None]))] or sts)[0]
+        w2 = P.ScriptWriter()
+        e2 = P.replay(repo, stmts, est, w2, coder='Encoder')
+        rr.instance('encoder: %s' % name)
+        if e1.ok != e2.ok or (not e1.ok and e1.exc.cls != e2.exc.cls) or (e1.ok and w1.log != w2.log):
+            k = first_difference(w1.log, w2.log)
+            rr.fail('concrete:%s:encoder' % name, fi.where, '%s: the plain encoder %s and writes %d fields, the compiled template %s and writes %d fields; first difference at '
+                    'field %s: %r / %r' % (name, _outcome(e1), len(w1.log), _outcome(e2), len(w2.log), k, w1.log[k:k + 1] if k is not None else None,
+                                           w2.log[k:k + 1] if k is not None else None), witness={'template': name})
+    if n_err < 5:
+        raise AnalysisError('C08.R9: only %d of the inconsistent-data templates make the plain walk fail (expected >= 5): the family no longer exercises the error clause' % n_err)
+    # compressed data whose subsets carry different bitmaps (and equal ones): plain and compiled decoders on the fields the plain encoder wrote
+    comp = {
+        'compressed, equal bitmaps': ([T(), T(12103), OP(222000), FIX(2, B()), Q()], [[2801, 2750, 0, 0, 1, 70], [2802, 2751, 0, 0, 1, 80]]),
+        'compressed, bitmaps differ between the subsets': ([T(), T(12103), OP(222000), FIX(2, B()), Q()], [[2801, 2750, 0, 0, 1, 70], [2802, 2751, 0, 1, 0, 80]]),
+        'compressed, bitmap for reuse differs between the subsets': (
+            [T(), T(12103), OP(224000), OP(236000), FIX(2, B()), sig(), OP(224255)], [[2801, 2750, 0, 0, 0, 1, 4, 2802], [2802, 2751, 0, 0, 1, 0, 4, 2803]]),
+    }
+    for name in sorted(comp):
+        members, subsets = comp[name]
+        rr.instance(name)
+        e1, d1, st1, rd1 = P.code_compressed(repo, members, subsets)
+        c, stmts = P.compile_template(repo, members)
+        if e1 is None or not c.ok:
+            raise AnalysisError('C08.R9 %s: %s' % (name, 'template does not compile' if not c.ok else 'no encoder result'))
+        n = len(subsets)
+
+        def cstate(values=None):
+            sts = fold_init(repo, True, n, values=values)
+            return ([x for x in sts if isinstance(x.fields.get('decoded_values_all_subsets'), list) and all(type(v) is list for v in x.fields['decoded_values_all_subsets'])] or sts)[0]
+        from sa.rules.walk import fold_init
+        w2 = P.ScriptWriter()
+        e2 = P.replay(repo, stmts, cstate([list(v) for v in subsets]), w2, coder='Encoder')
+        if e1.ok != e2.ok or (not e1.ok and e1.exc.cls != e2.exc.cls):
+            rr.fail('concrete:%s:encoder' % name, fi.where, '%s: the plain encoder %s, the compiled template %s' % (name, _outcome(e1), _outcome(e2)), witness={'template': name})
+            continue
+        if not e1.ok:
+            continue
+        st2 = cstate()
+        rd2 = P.FieldReader(rd1.log)
+        d2 = P.replay(repo, stmts, st2, rd2)
+        if d1.ok != d2.ok or (not d1.ok and d1.exc.cls != d2.exc.cls):
+            rr.fail('concrete:%s:outcome' % name, fi.where, '%s: the plain decoder %s, the compiled template %s on the same fields' % (name, _outcome(d1), _outcome(d2)),
+                    witness={'template': name})
+        elif d1.ok and (st1.fields['decoded_values_all_subsets'] != st2.fields['decoded_values_all_subsets'] or
+                        st1.fields['bitmap_links_all_subsets'] != st2.fields['bitmap_links_all_subsets']):
+            rr.fail('concrete:%s:values' % name, fi.where, '%s: plain %r links %r, compiled %r links %r' % (
+                name, st1.fields['decoded_values_all_subsets'], st1.fields['bitmap_links_all_subsets'], st2.fields['decoded_values_all_subsets'],
+                st2.fields['bitmap_links_all_subsets']), witness={'template': name})
+    rr.extra = {'templates': len(family), 'failing_data_templates': n_err}
+    rr.require_floor(40)
+    return rr
+
+
 def _all_descs(members):
     for m in members:
         yield m
@@ -986,6 +1113,7 @@ def run(repo, check):
     check.run_rule(rule_r4, repo)
     check.run_rule(rule_r5, repo)
     check.run_rule(rule_r6, repo, check.tier)
+    check.run_rule(rule_r9, repo)
     if check.tier == 'thorough':
         check.run_rule(rule_r8, repo)
     from sa.rules import c14
